@@ -64,9 +64,15 @@ def lut(V, accel, n):
         t = _Obj(purpose=TensorPurpose.LUT, values=("table", tag), address=None, equivalence_id="eq%d" % i, name="lut%d" % i, _size=size)
         t.storage_size = lambda t=t: t._size
         act = _Obj(lut_index=None)
-        ps = _Obj(lut_tensor=t, primary_op=_Obj(activation=act), ofm_shapes=[[1, 1, 1, 1]], name="ps%d" % i)
+        from ethosu.vela.operation import NpuBlockType
+
+        ps = _Obj(lut_tensor=t, primary_op=_Obj(activation=act), ofm_shapes=[[1, 1, 1, 1]], name="ps%d" % i, npu_block_type=NpuBlockType.ElementWise)
         if bool(clobber):
-            ps0 = _Obj(lut_tensor=None, primary_op=_Obj(activation=None), ofm_shapes=[[1, 1, 1, 1]], name="plain%d" % i)
+            # the operation in between has no table of its own; on the 16-bank parts ANY kind of operation uses the table's banks as working buffers
+            # (the kind is a symbolic choice in the histories of up to two LUT operations; longer histories keep one kind - three more forks per
+            # clobbering stripe made the four-operation histories 30 times slower)
+            kind = V.choice("clobber_kind%d" % i, [NpuBlockType.ConvolutionMxN, NpuBlockType.ElementWise, NpuBlockType.Pooling]) if n <= 2 else NpuBlockType.ConvolutionMxN
+            ps0 = _Obj(lut_tensor=None, primary_op=_Obj(activation=None), ofm_shapes=[[1, 1, 1, 1]], name="plain%d" % i, npu_block_type=kind)
             cmds.append(("plain", _mk_stripe(ps0)))
         d = DMA(ps, _Obj(name="src%d" % i), t, None)
         cmds.append(("dma", d))
@@ -435,6 +441,15 @@ def ifm_fuse(V, kind):
     return cl
 
 
+def weight_ranges(V, **params):
+    """the scale records an operation reads come from the region of the tensor that holds them - a stand-alone scale tensor (weights served from
+    the cache) stays in the constants region even when the weights are buffered in SRAM (harness/c08.py weight_ranges); read through the weight
+    buffer's region they are bytes nothing defined"""
+    from harness import c08
+
+    return c08.weight_ranges(V, **params)
+
+
 def rolling_dims(V, **params):
     """the allocation of a rolling buffer (sized from rolling_buffer_shape) covers what the producer writes and the consumer reads: width,
     16-channel bricks, rows (harness/c02.py rolling_dims); a smaller shape lets a neighbouring tensor overwrite rows still to be read"""
@@ -493,7 +508,7 @@ def lut_dma(V, C, nslices):
     return claims
 
 
-FUNCS = {"lut_dma": lut_dma, "rolling_dims": rolling_dims, "ifm_fuse": ifm_fuse, "format_rules": format_rules, "buffering": buffering, "lut": lut, "wbuf": wbuf, "rolling": rolling, "lr_rolling": lr_rolling, "build_twice": build_twice, "memcpy": memcpy, "wbuf_sizes": wbuf_sizes}
+FUNCS = {"weight_ranges": weight_ranges, "lut_dma": lut_dma, "rolling_dims": rolling_dims, "ifm_fuse": ifm_fuse, "format_rules": format_rules, "buffering": buffering, "lut": lut, "wbuf": wbuf, "rolling": rolling, "lr_rolling": lr_rolling, "build_twice": build_twice, "memcpy": memcpy, "wbuf_sizes": wbuf_sizes}
 
 
 def instances(tier, seed):
@@ -527,6 +542,8 @@ def instances(tier, seed):
         if inst["fn"] == "format_rules":
             out.append(dict(key=inst["key"], fn="format_rules", params=inst["params"], weight=inst.get("weight", 1)))
     for inst in c08.instances(tier, seed):
+        if inst["fn"] == "weight_ranges":
+            out.append(dict(key=inst["key"], fn="weight_ranges", params=inst["params"]))
         if inst["fn"] == "encode":
             out.append(dict(key="wbuf_sizes/" + inst["key"], fn="wbuf_sizes", params=inst["params"], weight=inst.get("weight", 1)))
         if inst["fn"] == "buffering":
